@@ -28,6 +28,18 @@ def run_product(case):
     # come in any order (SummaryGrammar!OrderIndependent): as written / reversed / sections interleaved round-robin / shuffled
     mode = case["seed"] % 4
     lines = list(b.summary_lines)
+    # the image sizes the summary lists (Pdi_NoOfPixels_<n> / Pdi_NoOfLines_<n>) are informational (SummaryGrammar: class "shape"): one
+    # pair per image as written, none at all, fewer pairs than images (one per scan, say), more pairs than images
+    shp = (case["seed"] // 4) % 5
+    k_img = len(imgs)
+    is_shape = lambda ln, lo=0: ln.startswith(("Pdi_NoOfPixels_", "Pdi_NoOfLines_")) and int(ln.split("=")[0].rsplit("_", 1)[1]) >= lo  # noqa: E731
+    if shp == 2:
+        lines = [ln for ln in lines if not is_shape(ln)]
+    elif shp == 3 and k_img > 1:
+        lines = [ln for ln in lines if not is_shape(ln, max(1, k_img // 2))]
+    elif shp == 4:
+        at = max(i for i, ln in enumerate(lines) if is_shape(ln)) + 1
+        lines[at:at] = [f'Pdi_NoOfPixels_{k_img}="11"', f'Pdi_NoOfLines_{k_img}="7"', f'Pdi_NoOfPixels_{k_img + 1}="12"', f'Pdi_NoOfLines_{k_img + 1}="8"']
     if mode == 1:
         lines.reverse()
     elif mode == 2:
